@@ -27,12 +27,13 @@ Theorem C09_priority : forall (w : world) (fields : list flag) (args : list toke
 Proof. exact run_priority. Qed.
 Print Assumptions C09_priority.
 
-(** The value of a flag depends only on its highest-priority source: two successful runs of
+(** ([oracle_agree]: same IntSize and pointwise equal out-of-model parsers — no function extensionality.)
+    The value of a flag depends only on its highest-priority source: two successful runs of
     the same flag set — other worlds, other command lines, other JSON, other values for every
     other flag and for the lower-priority sources of [f] — agree on [f] whenever the top source
     of [f] is the same. *)
 Theorem C09_sources_independent : forall w1 w2 fields args1 args2 s1 s2 rest1 rest2,
-  (forall k t, w_set w1 k t = w_set w2 k t) ->
+  oracle_agree (w_set w1) (w_set w2) ->
   run w1 fields args1 = RParse (POk s1 rest1) -> run w2 fields args2 = RParse (POk s2 rest2) ->
   exists fs st0 asg1 asg2 ov1 ov2,
     new_flag_set (w_set w1) fields = NOk fs st0
@@ -139,7 +140,7 @@ Definition ex_world : world :=
      w_file := fun p => if bytes_eqb p [99;46;106;115;111;110] then Some [123;125] else None;
      w_b64 := fun _ => None;
      w_json := fun _ => Some [([112], VInt 3); ([97;100;100;114], VString [106]); ([100;101;98;117;103], VBool true)];
-     w_set := fun _ _ => SErr |}.
+     w_set := {| o_int_size := 64; o_parse := fun _ _ => SErr |} |}.
 
 Example C09_example :
   run ex_world ex_fields [[45;112;61;49]; [45;99;111;110;102;105;103;61;99;46;106;115;111;110]; [120]]
